@@ -10,6 +10,7 @@ From Pnc Require Import Proofs_RoundTrip.
 From Pnc Require Import CSub.
 From Pnc Require Import Gen_scs.
 From Pnc Require Import Proofs_GenScs.
+From Pnc Require Import Proofs_Reach3.
 Set Printing Width 100.
 Set Printing Depth 100000.
 
@@ -211,7 +212,7 @@ Theorem C15_gen_check_EINVALCOORDS_eq :
 Proof. exact @gen_check_EINVALCOORDS_eq. Qed.
 Print Assumptions C15_gen_check_EINVALCOORDS_eq.
 
-(* check_EEDGE, where its MPI_Offset arithmetic does not overflow *)
+(* check_EEDGE, where start >= 0 and the sum start + count fits MPI_Offset *)
 Theorem C15_gen_check_EEDGE_eq :
   forall (ps pc pt psh : c_ptr Z) (s c : Z) (t : option Z) (sh : Z),
          p_ok ps 0 = true ->
@@ -221,11 +222,35 @@ Theorem C15_gen_check_EEDGE_eq :
          p_ok psh 0 = true ->
          p_get 0%Z psh 0 = sh ->
          ptr_at pt t ->
-         edge_arith_ok s c t -> check_EEDGE_c ps pc pt psh = FVal (Access.check_EEDGE s c t sh).
+         edge_arith_ok s c sh -> check_EEDGE_c ps pc pt psh = FVal (Access.check_EEDGE s c t sh).
 Proof. exact @gen_check_EEDGE_eq. Qed.
 Print Assumptions C15_gen_check_EEDGE_eq.
 
-(* check_start_count_stride = Access.check_scs for all arguments satisfying the guards the C code relies on (array lengths, classic format, no overflow in check_EEDGE) *)
+(* the repaired stride test of check_EEDGE (no product): its subtractions and its division are defined for every accepted start and count *)
+Theorem C15_stride_test_defined :
+  forall s c sh : Z,
+         (c <= sh)%Z ->
+         (s + c <= sh)%Z ->
+         (0 <= s)%Z ->
+         (sh <= 9223372036854775807)%Z ->
+         (1 < c)%Z ->
+         in_i64 (sh - 1) = true /\
+         in_i64 (sh - 1 - s) = true /\
+         in_i64 (c - 1) = true /\ div_ok i64_min (sh - 1 - s) (c - 1) = true.
+Proof. exact @eedge_checks. Qed.
+Print Assumptions C15_stride_test_defined.
+
+(* ... and it equals the model's test start + (count - 1) * stride >= shape for EVERY stride value (no overflow guard on the stride) *)
+Theorem C15_stride_test_exact :
+  forall s c tv sh : Z,
+         (c <= sh)%Z ->
+         (s + c <= sh)%Z ->
+         ((c >? 1)%Z && (tv >? 0)%Z && (tv >? (sh - 1 - s) ÷ (c - 1))%Z)%bool =
+         ((c >? 0)%Z && (s + (c - 1) * tv >=? sh)%Z)%bool.
+Proof. exact @eedge_test. Qed.
+Print Assumptions C15_stride_test_exact.
+
+(* check_start_count_stride = Access.check_scs for all arguments satisfying the guards the C code relies on (array lengths, classic format, start + count of an accepted request fits MPI_Offset: only dimensions beyond 2^62 can violate it) *)
 Theorem C15_gen_check_scs_eq :
   forall (pncp : c_PNC) (varid isr : Z) (kind : Access.apikind) (recdim : Z) 
            (shape : list Z) (numrecs : Z) (st : list Z) (count stride : option (list Z)),
@@ -234,7 +259,8 @@ Theorem C15_gen_check_scs_eq :
          In (PNC__format pncp) (1%Z :: 2%Z :: 5%Z :: nil) ->
          scs_lengths shape st count stride ->
          (Base.Zlen shape <= 2147483647)%Z ->
-         scs_arith_ok st count stride ->
+         Forall (fun x : Z => (x <= 9223372036854775807)%Z) (shp_of (recdim >=? 0)%Z shape numrecs) ->
+         scs_sum_ok (shp_of (recdim >=? 0)%Z shape numrecs) st count ->
          check_start_count_stride_c pncp varid isr (kind_code kind) (Some (st, 0%Z)) 
            (c_arr count) (c_arr stride) Gen_consts.NC_NOERR numrecs =
          FVal
@@ -267,7 +293,81 @@ Proof. exact @gen_check_scs_inq_error. Qed.
 Print Assumptions C15_gen_check_scs_inq_error.
 
 (* the translator met no construct outside its subset *)
+(* ---- for EVERY reachable state of the API-level model (Proofs_Reach*.v) ---- *)
+(* C15 variables do not overlap (for every history) ---------------- *)
+(* any state satisfying the invariant: lay_inv, layout_ok, begins >= hdr_len, fixed variables pairwise *)
+(* disjoint and in definition order, fixed variables end at or before begin_rec <= record variables *)
 Theorem C15_gen_scs_subset_complete :
   tr_cfun_unsupported = nil.
 Proof. exact @gen_scs_subset_complete. Qed.
 Print Assumptions C15_gen_scs_subset_complete.
+
+(* an accepted put (any form: var, var1, vara, vars, varm, varn; arrays of ndims entries) writes no byte *)
+(* below the header length: the file state keeps satisfying the invariant *)
+Theorem C15_inv_layout :
+  forall (w : Exec.world) (id : Z) (f : Exec.filest),
+         Proofs_Reach.world_inv w ->
+         Base.znth (Exec.w_files w) id None = Some f ->
+         Exec.f_tainted f = false ->
+         Exec.f_indef f = false ->
+         let h := Exec.f_hdr f in
+         let lay := Exec.f_lay f in
+         Proofs_Layout.lay_inv (Proofs_Layout.t3of h) (Proofs_Reach.lay_core lay) /\
+         (Header.h_vars h <> nil -> Proofs_Layout.lay_inv (Proofs_Layout.t3of h) lay) /\
+         HeaderSpec.layout_ok h (Header.hdr_len h) = true /\
+         (forall i : Z,
+          (0 <= i < Base.Zlen (Header.h_vars h))%Z ->
+          (Header.hdr_len h <= Header.v_begin (Base.znth (Header.h_vars h) i Proofs_Redef.dv))%Z) /\
+         (forall i j : Z,
+          (0 <= i)%Z ->
+          (i < j)%Z ->
+          (j < Base.Zlen (Header.h_vars h))%Z ->
+          Header.is_recvar (Header.h_dims h) (Base.znth (Header.h_vars h) i Proofs_Redef.dv) = false ->
+          Header.is_recvar (Header.h_dims h) (Base.znth (Header.h_vars h) j Proofs_Redef.dv) = false ->
+          (Header.v_begin (Base.znth (Header.h_vars h) i Proofs_Redef.dv) +
+           Header.var_len (Header.h_dims h) (Base.znth (Header.h_vars h) i Proofs_Redef.dv) <=
+           Header.v_begin (Base.znth (Header.h_vars h) j Proofs_Redef.dv))%Z) /\
+         (forall i : Z,
+          (0 <= i < Base.Zlen (Header.h_vars h))%Z ->
+          if Header.is_recvar (Header.h_dims h) (Base.znth (Header.h_vars h) i Proofs_Redef.dv)
+          then
+           (Header.l_begin_rec lay <= Header.v_begin (Base.znth (Header.h_vars h) i Proofs_Redef.dv))%Z
+          else
+           (Header.v_begin (Base.znth (Header.h_vars h) i Proofs_Redef.dv) +
+            Header.var_len (Header.h_dims h) (Base.znth (Header.h_vars h) i Proofs_Redef.dv) <=
+            Header.l_begin_rec lay)%Z).
+Proof. exact @inv_layout. Qed.
+Print Assumptions C15_inv_layout.
+
+(* every offset of an accepted request is at or after the variable's begin *)
+Theorem C15_put_fold_file_ok :
+  forall (np nd : Z) (d : Disk.disk) (f : Exec.filest) (w : Exec.world) 
+           (rank : Z) (coll : bool) (a : Exec.access) (e1 : Z) (rs : list Exec.rreq),
+         Proofs_Reach.file_ok np nd d f ->
+         Proofs_Reach.put_acc_ok f a = true ->
+         Exec.sanity f true true coll a = Gen_consts.NC_NOERR ->
+         Exec.check_request w f rank false a = (e1, Some rs) ->
+         Proofs_Reach.file_ok np nd (put_fold f a (Exec.with_bases rs 0) d) f.
+Proof. exact @put_fold_file_ok. Qed.
+Print Assumptions C15_put_fold_file_ok.
+
+(* what check_request accepts satisfies req_ok, every form *)
+Theorem C15_offsets_ge_begin :
+  forall (g : Access.geom) (start count : list Z) (stride : option (list Z)),
+         wf_geom g ->
+         req_ok (Access.g_shape g) start count (stride_or_ones (length (Access.g_shape g)) stride) ->
+         forall o : Z, In o (Access.model_offsets g start count stride) -> (Access.g_begin g <= o)%Z.
+Proof. exact @offsets_ge_begin. Qed.
+Print Assumptions C15_offsets_ge_begin.
+
+Theorem C15_check_request_all_ok :
+  forall (w : Exec.world) (f : Exec.filest) (rank : Z) (isread : bool) 
+           (a : Exec.access) (e : Z) (rs : list Exec.rreq),
+         dims_wf (Header.var_shape (Header.h_dims (Exec.f_hdr f)) (Exec.the_var f a)) ->
+         (0 <= Exec.rk_numrecs (Exec.get_rank f rank))%Z ->
+         Proofs_Reach.acc_lens_b (Exec.ac_form a) (length (Header.v_dimids (Exec.the_var f a))) =
+         true ->
+         Exec.check_request w f rank isread a = (e, Some rs) ->
+         Forall (rq_req_ok (Header.var_shape (Header.h_dims (Exec.f_hdr f)) (Exec.the_var f a))) rs.
+Proof. exact @check_request_all_ok. Qed.
+Print Assumptions C15_check_request_all_ok.
